@@ -168,6 +168,13 @@ def api_call(job):
     if out["exc"] is not None:
         after = impl.gates_of(arg) if api == "compress" else _snapshot_stab(arg)
         out["unchanged"] = 1 if after == before else 0
+    if out["cls"] >= 0:
+        # the caller also looks at the table entry of the class it has just been served (public lookup + parse_circuit) and edits the circuit it gets:
+        # later requests for this class in this process must not notice
+        try:
+            hostile(lib.circuit_lookup.stabilizer_circuit_lookup(n, conn, out["cls"]).parse_circuit())
+        except Exception:
+            pass
     if api == "readout" and job.get("alt") is not None and out["exc"] is None:
         try:
             st2 = stab_from_codes(n, job["alt"], "matrices")
